@@ -202,6 +202,10 @@ impl OutputFormat for XBin {
         result.palette_mode = if extended_char_mode { PaletteMode::Free8 } else { PaletteMode::Free16 };
         result.ice_mode = if use_ice { IceMode::Ice } else { IceMode::Blink };
 
+        let font_blocks = if has_custom_font { font_size as usize * 256 * if extended_char_mode { 2 } else { 1 } } else { 0 };
+        if o + if has_custom_palette { XBIN_PALETTE_LENGTH } else { 0 } + font_blocks > data.len() {
+            return Err(LoadingError::FileTooShort.into());
+        }
         if has_custom_palette {
             result.palette = Palette::from_63(&data[o..(o + XBIN_PALETTE_LENGTH)]);
             o += XBIN_PALETTE_LENGTH;
@@ -271,6 +275,10 @@ fn read_data_compressed(result: &mut Buffer, bytes: &[u8]) -> EngineResult<bool>
                 }
             }
             Compression::Char => {
+                if o >= bytes.len() {
+                    log::error!("Invalid XBin. Read char compression block beyond EOF.");
+                    break;
+                }
                 let char_code = bytes[o];
                 o += 1;
                 for _ in 0..repeat_counter {
@@ -288,6 +296,10 @@ fn read_data_compressed(result: &mut Buffer, bytes: &[u8]) -> EngineResult<bool>
                 }
             }
             Compression::Attr => {
+                if o >= bytes.len() {
+                    log::error!("Invalid XBin. Read attribute compression block beyond EOF.");
+                    break;
+                }
                 let attribute = bytes[o];
                 o += 1;
                 for _ in 0..repeat_counter {
@@ -304,6 +316,10 @@ fn read_data_compressed(result: &mut Buffer, bytes: &[u8]) -> EngineResult<bool>
                 }
             }
             Compression::Full => {
+                if o >= bytes.len() {
+                    log::error!("Invalid XBin. nRead compression block beyond EOF.");
+                    break;
+                }
                 let char_code = bytes[o];
                 o += 1;
                 if o + 1 > bytes.len() {
